@@ -575,14 +575,23 @@ def run_impl(case, keep_root=False, inject=None):
         if obs.raised is None:
             events.append(("done",))
         else:
-            failed, skipped, sec = [], [], None
+            # the final report lists the failed tasks and then the skipped ones, each list under a heading, one indented
+            # identifier per line (details of a failure are indented further).  Only this STRUCTURE is relied on, not the
+            # wording of the headings.
+            blocks, cur = [], None
             for line in text.splitlines():
-                if line.startswith("Failed task(s):"):
-                    sec = failed
-                elif line.startswith("Skipped task(s)"):
-                    sec = skipped
-                elif sec is not None and line.startswith("  //"):
-                    sec.append(int(line.rsplit(":t", 1)[1]))
+                mt = _re0.match(r"^  //\S*:t(\d+)\s*$", line)
+                if mt:
+                    if cur is None:
+                        cur = []
+                        blocks.append(cur)
+                    cur.append(int(mt.group(1)))
+                elif line.startswith("    ") or not line.strip():
+                    continue
+                else:
+                    cur = None
+            failed = blocks[0] if blocks else []
+            skipped = blocks[1] if len(blocks) > 1 else []
             events.append(("failed", failed, skipped))
     obs.events = events
     obs.n_cached = n_cached
